@@ -929,6 +929,12 @@ func ruleG2(c *Ctx, r *Report, scope map[*ssa.Function]bool, rule string) {
 				r.OK(rule, key, pos, fmt.Sprintf("%d exit tests, %d depend on stream data; every cycle also passes an error test or a bounded counter test", nExit, nData))
 				continue
 			}
+			if boundT != nil {
+				if n := ts.guardedAtCallers(f, boundT); n > 0 {
+					r.OK(rule, key, pos, fmt.Sprintf("the count that bounds the loop is compared before the call at all %d call sites of this unexported function", n))
+					continue
+				}
+			}
 			what := "its exit tests depend only on values read from the stream"
 			if boundT != nil {
 				what = fmt.Sprintf("it is bounded by an untrusted %d-bit count (from %s) that is not compared with anything before the loop", boundT.bits, rootNames(boundT))
@@ -1691,4 +1697,28 @@ func srcOfExpr(f *ssa.Function, v ssa.Value) string {
 		return true
 	})
 	return best
+}
+
+// guardedAtCallers: f is unexported and every repository call site is dominated by a comparison that shares a
+// taint root with t (the guard context of code that was extracted into a helper). Returns the number of call
+// sites, 0 if not all are guarded.
+func (ts *taintState) guardedAtCallers(f *ssa.Function, t *taintV) int {
+	if f.Object() == nil || f.Object().Exported() {
+		return 0
+	}
+	node := ts.c.CallGraph().Nodes[f]
+	if node == nil || len(node.In) == 0 {
+		return 0
+	}
+	n := 0
+	for _, e := range node.In {
+		if e.Site == nil {
+			return 0
+		}
+		if ok, _ := ts.guardedBy(e.Site.Block(), t); !ok {
+			return 0
+		}
+		n++
+	}
+	return n
 }
